@@ -59,7 +59,8 @@ Judge(ph, i) ==
                      ELSE IF SeqSet(x.cw) # lin THEN "EncoderLinear"
                      ELSE IF x.len # 196 THEN "EncodesTo196Bits"
                      \* all 196 transmitted bits, the reserved ones included: x.rep = the codeword after repair
-                     ELSE IF SeqSet(x.rep) # SeqSet(x.cw) THEN "ErrorFreeCodewordNeverAlteredByRepair" ELSE "ok",
+                     ELSE IF SeqSet(x.rep) # SeqSet(x.cw) THEN "ErrorFreeCodewordNeverAlteredByRepair"
+                     ELSE IF x.drepdiff # <<>> THEN "ErrorFreeCodewordNeverAlteredByRepair(de-interleaved form)" ELSE "ok",
              dr |-> "ok", design |-> "ok"]
     [] ph = "struct" ->
          \* layout facts: the learned transmitted position of info bit i is the ETSI position of its matrix cell;
